@@ -25,6 +25,9 @@ def run(chk: Check, drv: Driver):
     )
     quick = chk.tier == "quick"
     rng = chk.rng
+    from .. import graphcorr
+
+    graphcorr.lattice_order_check(chk, 150 if quick else 2000, drv)
     wf_reqs, wf_meta = [], []
     for cap in [1, 2, 3, None]:
         with kruns.initial_capacity(cap):
